@@ -4,6 +4,7 @@ import re
 import shutil
 import tempfile
 import threading
+import time
 
 from verif import build, core, proc
 from verif.gen import colls as G
@@ -126,6 +127,15 @@ def execute(env, unit, np, layout, cases, sync=False, timeout=WATCHDOG):
     if layout == "rev":
         cmd.append("rev")
     res = proc.run(cmd, timeout=timeout)
+    for attempt in range(4):
+        # libsimgrid.so being relinked by a concurrent build (other checks share the build tree): not a result
+        if not (res.rc == 127 or INFRA_RE.search(res.err or "") or INFRA_RE.search(res.out or "")):
+            break
+        time.sleep(15 * (attempt + 1))
+        build.ensure("hooks")
+        res = proc.run(cmd, timeout=timeout)
+    else:
+        res.timed_out = True        # still no usable library: inconclusive, never a violation
     try:
         os.unlink(cf)
     except OSError:
@@ -133,6 +143,8 @@ def execute(env, unit, np, layout, cases, sync=False, timeout=WATCHDOG):
     return res
 
 
+INFRA_RE = re.compile(r"error while loading shared libraries|cannot open shared object file|No such file or directory.*smpimain|"
+                      r"smpimain: not found|Text file busy")
 BAD_RE = re.compile(r"^BAD (\d+) rank=(\d+) kind=([\w-]+)(.*)$")
 SIG_NAMES = {11: "SIGSEGV", 8: "SIGFPE", 6: "abort", 7: "SIGBUS"}
 HEAP_RE = re.compile(r"corrupted|double free|invalid next size|invalid pointer|munmap_chunk|malloc\(\):|free\(\):|"
@@ -380,9 +392,12 @@ class Runner:
                 if prefix is None:
                     return
                 fcase = prefix[-1]
-                st = self.single(unit, np, layout, fcase, seen) if len(prefix) > 1 else "seq"
+                st = self.single(unit, np, layout, fcase, seen)
                 if st in ("failed", "refused"):
                     fstate = st
+                elif len(prefix) == 1:
+                    ctx.inconclusive("failure of %s np=%d %s not reproduced by the failing case alone" % (uname(unit), np, layout))
+                    return
                 else:
                     r = execute(self.env, unit, np, layout, prefix)
                     ctx.count("runs")
@@ -440,7 +455,7 @@ class Runner:
                 if st == "ok" and not AUDIT:
                     self.evaluate(unit, np, layout, cs[1:])
                     continue
-                reps = cs[1:] if AUDIT else cs[1:(3 if ctx.tier == "thorough" else 1)]
+                reps = cs[1:5] if AUDIT else cs[1:(3 if ctx.tier == "thorough" else 1)]
                 for c in reps:
                     self.single(unit, np, layout, c, seen)
                 ctx.count("cases_skipped_class_of_a_listed_crash", len(cs) - 1 - len(reps))
